@@ -50,6 +50,7 @@ def try_(name, prop, tier="quick"):
     print("\n".join(lines[:12]))
     print("rc=%d wall=%ds" % (rc, time.time() - t))
     rec = {"check": prop, "tier": tier, "rc": rc, "detected": rc == 1, "first": lines[:3]}
+    os.makedirs(os.path.join(OUT, name), exist_ok=True)
     p = os.path.join(OUT, name, "tried.json")
     d = json.load(open(p)) if os.path.exists(p) else []
     d.append(rec); json.dump(d, open(p, "w"), indent=1)
@@ -72,6 +73,19 @@ def keep(name):
     print("kept", dst)
 
 
+def apply(name):
+    """fresh scratch worktree of /repo HEAD with the kept patch applied"""
+    wt = os.path.join(WT, name)
+    if not os.path.exists(wt):
+        rc, o = sh("git -C /repo worktree add -q --detach %s HEAD" % wt)
+        if rc:
+            print(o); return 1
+    rc, o = sh("git checkout -q -- . && git apply %s" % os.path.join(VERIF, "seeded", name, "patch.diff"), cwd=wt)
+    print(o or "applied %s in %s" % (name, wt))
+    os.makedirs(os.path.join(OUT, name), exist_ok=True)
+    return rc
+
+
 def drop(name):
     wt = os.path.join(WT, name)
     sh("git -C /repo worktree remove --force %s" % wt)
@@ -82,4 +96,4 @@ def drop(name):
 
 if __name__ == "__main__":
     a = sys.argv[1:]
-    sys.exit({"confirm": confirm, "try": try_, "keep": keep, "drop": drop}[a[0]](*a[1:]) or 0)
+    sys.exit({"confirm": confirm, "try": try_, "keep": keep, "drop": drop, "apply": apply}[a[0]](*a[1:]) or 0)
